@@ -28,7 +28,7 @@ PAIRS_QUICK = _pairs(6)
 PAIRS_THOROUGH = _pairs(12)
 BUDGET = {
     "quick": {"runs": len(PAIRS_QUICK) * 60, "wall": 300, "chunk": 13},
-    "thorough": {"runs": len(PAIRS_THOROUGH) * 120, "wall": 3000, "chunk": 57},
+    "thorough": {"runs": len(PAIRS_THOROUGH) * 800, "wall": 3400, "chunk": 57},
 }
 RULE = (
     "run indices are dealt round-robin over ALL (m,k) pairs with m<=6 (quick) / m<=12 (thorough), k in "
